@@ -61,3 +61,10 @@ def run(ctx, config='rel-all'):
     # before its destructor runs, so a panicking destructor is never run again by Drain::drop) and follow std's formulas
     from . import splice
     splice.check(ctx, config, 'R3')
+    # ---- R4 String::retain's guard: what it restores on unwinding (len := idx - del_bytes, idx = the read cursor at the moment of
+    # the panic) is part of std's byte-shift algorithm: the clauses of C14.O4.  The typestate above assumes guards compute the
+    # right length from their fields; this discharges the assumption for the one guard whose fields are byte offsets into text
+    if config != 'rel-default':
+        from .. import runner
+        from . import c14
+        c14.run(runner.Sub(ctx, 'R4', 'C14', only={'O4'}), config)
